@@ -460,6 +460,7 @@ def e2e(chk, case, expect_ok, what):
         files[DIR + "/COND/placeholder"] = ""
     root = implrun.make_project(files)
     for rel, text in case.get("outside", {}).items():
+        os.makedirs(os.path.dirname(os.path.join(os.path.dirname(root), rel)), exist_ok=True)
         with open(os.path.join(os.path.dirname(root), rel), "w", encoding="utf-8") as f:
             f.write(text)
     for link, target in case.get("symlinks", {}).items():
@@ -520,6 +521,9 @@ def include_cases():
         mk("include('common')\n", False, "wrong-extension", files={DIR + "/common": "REPS = 3\n"}),
         mk("include('common.cond.txt')\n", False, "wrong-extension", files={DIR + "/common.cond.txt": "REPS = 3\n"}),
         mk("include('../../outside.cond')\n", False, "outside-project", outside={"outside.cond": "REPS = 3\n"}),
+        # a SIBLING of the project root whose name starts with the root's name (the project lives in .../p): outside the project all the same
+        mk("include('../../p-shared/common.cond')\n", False, "outside-project-sibling-with-the-roots-name-as-prefix", outside={"p-shared/common.cond": "REPS = 3\n"}),
+        mk("include('../../pp/common.cond')\n", False, "outside-project-sibling-pp", outside={"pp/common.cond": "REPS = 3\n"}),
         mk("include('link.cond')\n", False, "outside-project-symlink", outside={"outside.cond": "REPS = 3\n"}, symlinks={DIR + "/link.cond": "../../outside.cond"}),
         mk("include('tasks.cond')\n", False, "task-defining", files={DIR + "/tasks.cond": "run_command(name='inc', run='true')\n"}),
         mk("include('tasks.cond')\n", False, "task-defining", files={DIR + "/tasks.cond": "X = 1\ncombine(name='inc')\n"}),
